@@ -403,6 +403,11 @@ def svg_d(ctx):
         top = [s for s in f.body if isinstance(s, ast.If)]
         ok = False
         detail = ""
+        if top and isinstance(top[0].test, ast.UnaryOp) and isinstance(top[0].test.op, ast.Not) and not top[0].orelse and top[0].body and isinstance(top[0].body[-1], ast.Return):
+            # guard clause `if not isinstance(previous, C): return B` followed by `return A`: the same two arms
+            rest = [s for s in f.body[f.body.index(top[0]) + 1:] if not (isinstance(s, ast.Expr) and isinstance(s.value, ast.Constant))]
+            if rest and isinstance(rest[0], ast.Return):
+                top = [ast.If(test=top[0].test.operand, body=[rest[0]], orelse=list(top[0].body), lineno=top[0].lineno)]
         if top:
             t = ast.unparse(top[0].test)
             body = ast.unparse(top[0].body[0]) if top[0].body else ""
